@@ -141,7 +141,7 @@ def enumerate_injections(ir, uni, kinds=None):
         if ln["role"] == "key":
             count[(e["sect"], ln["item"])] = count.get(
                 (e["sect"], ln["item"]), 0) + 1
-    for e in entries:
+    for k_e, e in enumerate(entries):
         ln, url, idx = e["line"], e["url"], e["idx"]
         n += 1
         if ln["role"] == "key":
@@ -149,6 +149,29 @@ def enumerate_injections(ir, uni, kinds=None):
             if "repeated-key" in kinds and not ln["multi"]:
                 out.append(_ins("repeated-key", 1 if ln["wild"] else 0, url,
                                 idx + 1, [ln["t"].strip()]))
+                # the repetition far away: later in the same section
+                # instance, preferably in another resource (the first
+                # occurrence and the repeat on opposite sides of an include
+                # boundary)
+                later = []
+                for e2 in entries[k_e + 1:]:
+                    r2 = e2["line"]["role"]
+                    if r2 == "close":
+                        sid2 = e2.get("closes")
+                        if sid2 is not None and \
+                                sections[sid2]["parent"] == e["sect"]:
+                            later.append(e2)
+                    elif r2 != "open" and e2["sect"] == e["sect"]:
+                        later.append(e2)
+                picks = []
+                other = [e2 for e2 in later if e2["url"] != url]
+                if other:
+                    picks.append(other[0])
+                if later and later[-1] not in picks:
+                    picks.append(later[-1])
+                for e2 in picks:
+                    out.append(_ins("repeated-key", 2, e2["url"],
+                                    e2["idx"] + 1, [ln["t"].strip()]))
             bad = G.DATATYPES[ln["dt"]][1]
             if "bad-value" in kinds and bad is not None:
                 out.append({"kind": "bad-value", "variant": 0, "url": url,
